@@ -131,11 +131,11 @@ def s2_accepting(prop, tier):
 
 
 def fam_mut(prop, tier):
-    """Family sentences with one mutation (truncate / delete / replace by ')') at a symbolic token position."""
+    """Family sentences with one mutation (truncate / delete / replace by ')' / insert ',') at a symbolic token position."""
     q = tier == "quick"
     runs = []
     for f in range(NFAM):
-        for mut in (0, 1, 2):
+        for mut in (0, 1, 2, 3):
             for wrap in ((1,) if f in (6, 7) else (0,)):
                 bud = 2 if (f in (6, 7) or not q) else 1
                 runs.append(dict(harness="verifHarness_FamMut", args=[prop, f, bud, 2, mut, wrap]))
